@@ -53,7 +53,16 @@ def main():
     for c, r in zip(cases, res):
         c.rec = r
         if r is None or r.get("deadlock") or r.get("crash") or r.get("err"):
-            machinery.append("%s: recording run failed (%s)" % (c.key(), "hang" if r and r.get("deadlock") else r))
+            if r and (r.get("deadlock") or r.get("crash")):
+                # a strategy that hangs (Go runtime: all goroutines are asleep) or dies on n snapshots does not emit one action per
+                # snapshot: a verdict on the real run, whatever its wiring looks like
+                got = [o["n"] for o in (r.get("outs") or [])]
+                V.violation({"pipe": c.pipe, "symptom": "never-completes"},
+                            "%s: on %d snapshots the real strategy %s before its %d actions are out%s" %
+                            (c.key(), c.rec_len, "hangs (Go runtime: all goroutines are asleep)" if r.get("deadlock") else "crashes",
+                             c.rec_len, (": delivered %s" % got) if got else ""), {"pipe": c.pipe, "cfg": c.cfg, "cap": c.cap, "n": c.rec_len})
+            else:
+                machinery.append("%s: recording run failed (%s)" % (c.key(), r))
             continue
         c.idle = r.get("idle", -1)
         c.wiring = r.get("wiring")
